@@ -21,21 +21,22 @@ def run (line : String) : String :=
   match ws.head?, natArg? ws "now", natListArg? ws "bits" with
   | some "reset", _, _ => "ok"
   | some op, some now, some bits =>
+    let ibits := (natListArg? ws "ibits").getD []
     if op == "verify" || op == "verify_adjacent" then
       match parseHdr ws "t.", parseHdr ws "u." with
       | some tr, some un =>
-        if op == "verify" then showVOut (verify (oracle bits) D TN TD now tr un) bits
-        else showVOut (verifyAdjacent (oracle bits) D TN TD now tr un) bits
+        if op == "verify" then showVOut (verify (oracle bits) D TN TD now tr un) bits ibits
+        else showVOut (verifyAdjacent (oracle bits) D TN TD now tr un) bits ibits
       | _, _ => "bad-op"
     else if op == "verify_range" || op == "verify_adjacent_range" || op == "verified" then
       match (natArg? ws "n").bind (parseHdrs ws) with
       | some hs =>
-        if op == "verified" then showVOut (verifiedTryFrom (oracles bits) D TN TD now hs) bits
+        if op == "verified" then showVOut (verifiedTryFrom (oracles bits) D TN TD now hs) bits ibits
         else match hs with
           | [] => "bad-op"
           | tr :: l =>
-            if op == "verify_range" then showVOut (verifyRange (oracles bits) D TN TD now tr l) bits
-            else showVOut (verifyAdjacentRange (oracles bits) D TN TD now tr l) bits
+            if op == "verify_range" then showVOut (verifyRange (oracles bits) D TN TD now tr l) bits ibits
+            else showVOut (verifyAdjacentRange (oracles bits) D TN TD now tr l) bits ibits
       | none => "bad-op"
     else "bad-op"
   | _, _, _ => "bad-op"
@@ -45,19 +46,24 @@ def step (_ : Unit) (line : String) : Unit × String := ((), run line)
 open Lumina.Spec.C02 in
 def spec (_ : Unit) (opl : String) (obs : String) : String :=
   let ws := words opl
-  let accepted := (words obs).head? == some "ok"
-  match ws.head?, natArg? ws "now", natListArg? ws "bits" with
-  | some "reset", _, _ => "specskip"
-  | some op, some now, some bits =>
+  let ows := words obs
+  let accepted := ows.head? == some "ok"
+  -- validity bits as reported (recomputed) by the implementation's run: `bits` through lumina's
+  -- own vote_sign_bytes, `ibits` over the independently encoded canonical vote (used by the spec)
+  match ws.head?, natArg? ws "now", obsNatList ows ws "ibits", obsNatList ows ws "bits" with
+  | some "reset", _, _, _ => "specskip"
+  | some op, some now, some bits, some lbits =>
     let now : Int := now
-    if op == "verify" || op == "verify_adjacent" then
+    if lbits != bits then
+      "specfail C02/sign-bytes signature validity through lumina's vote_sign_bytes differs from validity over the canonical vote"
+    else if op == "verify" || op == "verify_adjacent" then
       match parseHdr ws "t.", parseHdr ws "u." with
       | some tr, some un =>
         let valid := validOf tr un bits
         if !specVerifyAdjacentExact valid now (toH tr) (toH un) accepted && op == "verify" then
           "specfail C02/verify-adjacent-exact adjacent header: verdict differs from the link conditions"
-        else if op == "verify_adjacent" && accepted && un.height != tr.height + 1 then
-          "specfail C02/verify-adjacent accepted a non-adjacent header"
+        else if op == "verify_adjacent" && !specVerifyAdjacentOp valid now (toH tr) (toH un) accepted then
+          "specfail C02/verify-adjacent verdict differs from (adjacent and linked)"
         else if !tr.valset.wf then "specskip"
         else if !specVerify valid now (toH tr) (toH un) accepted then
           "specfail C02/verify accepted a header that is not a linked successor"
@@ -81,7 +87,7 @@ def spec (_ : Unit) (opl : String) (obs : String) : String :=
       | some [] => if accepted then "specok" else "specfail C02/empty-rejected"
       | none => "specfail C02/unparsed"
     else "specfail C02/unparsed"
-  | _, _, _ => "specfail C02/unparsed"
+  | _, _, _, _ => "specfail C02/unparsed"
 
 def handler : Driver.Handler Unit := { init := (), step := step, spec := spec }
 
